@@ -14,6 +14,7 @@ import WowVerif.Model.ChunkFrame
 import WowVerif.Model.View
 import WowVerif.Model.Cfg
 import WowVerif.Model.Wireshark
+import WowVerif.Model.Example
 import Std.Data.HashMap
 namespace WowVerif.Driver
 
@@ -497,6 +498,23 @@ def loadLine (st : DState) (line : String) : DState :=
 def semHandle (st : DState) (ws : List String) : Option String :=
   match ws with
   | ["wskeys"] => some s!"{st.wsprogs.size}"
+  | ["trace", key, hex] =>
+    -- C18: the field boundaries the definition prescribes for these bytes, and the groups cut at them
+    match st.corpus.get? key, unhex hex with
+    | some (_, c), some bs =>
+      match Sem.firstPrim c with
+      | some w => some s!"unsupported {w}"
+      | none =>
+        match Sem.decode c bs with
+        | .error e => some s!"specerr {showErr e}"
+        | .ok vs => match Wireshark.trMembers c [] vs with
+          | some (tr, _) =>
+            let ws := tr.map (·.1)
+            let gs := Example.splitBy ws bs
+            some s!"ok widths={",".intercalate (ws.map toString)} total={ws.sum} len={bs.length} groups={",".intercalate (gs.map fun g => if g.isEmpty then "-" else hexOf g)}"
+          | none => some "tracefail"
+    | none, _ => some "nokey"
+    | _, _ => some "bad-op"
   | ["wsrun", name, s2c, ver, key, seed, maxLen, sample] =>
     -- C17: generate a canonical value of container `key`, encode it, walk it with dissector program `name`
     match st.wsprogs.get? name, st.corpus.get? key, seed.toNat?, maxLen.toNat?, sample.toNat?, ver.toNat? with
